@@ -13,6 +13,8 @@ import random
 from ..canon import ABSENT, canon_default, describe_default_change, prose_equal
 from ..gen_ir import IRGen, knobs, NoneStr
 
+from collections import OrderedDict  # noqa: E402
+
 PROPERTY = "C17"
 LEVEL = "exploration"
 SHARDS = {"quick": 4, "thorough": 16}
@@ -140,6 +142,30 @@ def one(ctx, name, prose, doc_class, typ, typ_class, value, default_class, how, 
                             observed=repr(p2.get("default", ABSENT))), replay)
     except Exception as e:
         ctx.report_exception(e, base, replay, stage="interpolate")
+    # the removal helpers (one parameter / a whole description) must agree with the codec: same prose, and the value handed
+    # over as the `default` property exactly when asked to (whatever the value: 0, 0.0 and False are values)
+    try:
+        from doctrans.defaults_utils import _remove_default_from_param, remove_defaults_from_intermediate_repr
+
+        ref_prose, ref_val = extract_default(doc2, emit_default_doc=False)
+        for prop in (True, False):
+            _, p3 = _remove_default_from_param((name, {"doc": doc2}), emit_default_prop=prop)
+            ir3 = remove_defaults_from_intermediate_repr(
+                {"name": "f", "doc": "d", "params": OrderedDict([(name, {"doc": doc2})]),
+                 "returns": OrderedDict([("return_type", {"doc": doc2})])}, emit_default_prop=prop)
+            ctx.event("removal_helpers")
+            for route, got3 in (("_remove_default_from_param", p3), ("remove_defaults_from_intermediate_repr:param", ir3["params"][name]),
+                                ("remove_defaults_from_intermediate_repr:return", ir3["returns"]["return_type"])):
+                want = canon_default(ref_val) if (prop and ref_val is not None) else ("absent",)
+                have = canon_default(got3.get("default", ABSENT))
+                if have != want:
+                    ctx.report(dict(base, field="default", tag="removal_helper_disagrees_with_codec", route=route, emit_default_prop=prop,
+                                    expected=repr(ref_val if prop else ABSENT), observed=repr(got3.get("default", ABSENT))), replay)
+                if got3.get("doc") != ref_prose:
+                    ctx.report(dict(base, field="doc", tag="removal_helper_disagrees_with_codec", route=route, emit_default_prop=prop,
+                                    expected=repr(ref_prose), observed=repr(got3.get("doc"))), replay)
+    except Exception as e:
+        ctx.report_exception(e, base, replay, stage="removal_helpers")
     if remove:
         ok, tag = prose_equal(prose, out_prose)
         if not ok:
